@@ -47,6 +47,24 @@ func (g *G) exprInfo(want Ty, depth int) (*lang.Node, *vinfo) {
 			return lang.Call(lang.Sel(lang.Import(g.o.HostMods[0]), "count"), g.expr(TAny, 1), g.expr(TAny, 1)), info
 		}
 	}
+	if g.chance(12, "errValue") {
+		if v := g.pickVar("errValVar", func(v *vinfo) bool { return v.t == TErr }); v != nil {
+			g.feat("error-value-selector")
+			info.t = TAny
+			return lang.Sel(lang.Ident(v.name), "value"), info
+		}
+	}
+	if g.chance(10, "freezeVar") && g.builtinFree("freeze") {
+		if v := g.pickVar("freezeVar", func(v *vinfo) bool { return v.t == TArr || v.t == TMap }); v != nil {
+			g.feat("builtin:freeze")
+			if v.t == TArr {
+				info.t, info.elem, info.alen = TImmArr, v.elem, v.alen
+			} else {
+				info.t, info.keys = TImmMap, v.keys
+			}
+			return lang.Call(lang.Ident("freeze"), lang.Ident(v.name)), info
+		}
+	}
 	if len(g.o.Modules) > 0 && g.chance(40, "srcModImport") {
 		g.feat("source-module-import")
 		info.t = TAny
@@ -124,13 +142,23 @@ func (g *G) exprInfo(want Ty, depth int) (*lang.Node, *vinfo) {
 		inner, el := g.arrLit(depth - 1)
 		info.elem = el
 		info.alen = len(inner.Kids)
-		e = lang.Immutable(inner)
-		g.feat("immutable-expr")
+		if g.builtinFree("freeze") && g.chance(300, "freezeArr") {
+			e = lang.Call(lang.Ident("freeze"), inner)
+			g.feat("builtin:freeze")
+		} else {
+			e = lang.Immutable(inner)
+			g.feat("immutable-expr")
+		}
 	case TImmMap:
 		inner, keys := g.mapLit(depth - 1)
 		info.keys = keys
-		e = lang.Immutable(inner)
-		g.feat("immutable-expr")
+		if g.builtinFree("freeze") && g.chance(300, "freezeMap") {
+			e = lang.Call(lang.Ident("freeze"), inner)
+			g.feat("builtin:freeze")
+		} else {
+			e = lang.Immutable(inner)
+			g.feat("immutable-expr")
+		}
 	}
 	// generic wrappers
 	if depth > 0 {
